@@ -15,9 +15,8 @@ from .. import uscan
 
 
 def run(ctx):
-    from .configtime import no_lazily_filled_attributes as _no_lazy, no_state_outside_objects as _no_state2
-    _no_lazy(ctx, 'C15.R4', ('Recipe', 'RecipeStep', 'Plate'))
-    _no_state2(ctx, 'C15.R4', classes=('Recipe', 'RecipeStep', 'Plate'))
+    from .configtime import derived_values as _derived
+    _derived(ctx, 'C15.R4', ('Recipe', 'RecipeStep', 'Plate', 'Container', 'Slicer', 'PlateSlicer'))
     from .configtime import no_identity_test_against_literals as _no_is_literal
     _no_is_literal(ctx, 'C15.R1', classes=('Recipe', 'RecipeStep'))
     from .configtime import no_shared_mutable_defaults as _mutdef
